@@ -384,6 +384,15 @@ CHECKS["C04"]["text"] += (" The melody frame metrics (validate_voicing, validate
                           "published definitions, the [0, 1] range and the octave invariance of the chroma accuracy on the code as "
                           "translated; suite gen_melody runs the translated definitions and the run-time primitives against the "
                           "real functions / NumPy.")
+CHECKS["C04"]["text"] += (" The pattern-discovery metrics (_occurrence_intersection, _compute_score_matrix, standard_FPR, "
+                          "establishment_FPR, occurrence_FPR, three_layer_FPR with its closures, first_n_three_layer_P, "
+                          "first_n_target_proportion_R) are REGENERATED from mir_eval/pattern.py on every run (translator part "
+                          "`pattern` -> lean/MirGen/Pattern.lean over the run-time library MirModel/PyPat.lean and the validators "
+                          "part's pattern.validate) and Props/C04_GenPattern.lean proves each translated definition equal to the "
+                          "hand model for all pattern lists (value or exception class, ZeroDivisionError on empty occurrences, "
+                          "precision above 1 in standard_FPR mirrored) and re-states the documented definitions and the [0, 1] "
+                          "range on the code as translated; suite gen_pattern runs the translated definitions and the run-time "
+                          "primitives against the real functions / NumPy.")
 
 
 def main():
